@@ -443,6 +443,11 @@ func gIdentRule() gLexSrc {
 		r.alts = append(r.alts, gLexAlt{n, "id:" + strings.ToUpper(n)})
 	}
 	r.alts = append(r.alts, gQuotedIdents...)
+	// a back-quoted name spelled like a keyword-like word is an ordinary name wherever a name may stand (and must stay one
+	// through SQL(), which prints it without the back quotes)
+	for _, n := range gKeywordLikeIdents {
+		r.alts = append(r.alts, gLexAlt{"`" + n + "`", "id:" + strings.ToUpper(n)})
+	}
 	for _, n := range gKeywordLikeIdents {
 		r.alts = append(r.alts, gLexAlt{n, "id:" + strings.ToUpper(n)}, gLexAlt{strings.ToUpper(n), "id:" + strings.ToUpper(n)})
 	}
